@@ -222,3 +222,53 @@ Proof.
   eexists. split; [exact Hl|]. simpl. repeat split; auto.
   intros e He. apply in_map_iff in He as [d [<- Hd]]. unfold mpath. simpl. apply Hconv. exact Hd.
 Qed.
+
+(* ---------- what rollback may delete (C02) ---------- *)
+Lemma restore_managed_keeps l : forall f p, f p <> None -> restore_managed f l p <> None.
+Proof.
+  unfold restore_managed. induction l as [|e l IH]; intros f p H; simpl; [exact H|].
+  apply IH. unfold upd. destruct (path_eqb p (snd (fst e))); [discriminate|exact H].
+Qed.
+
+Lemma restore_manifests_keeps l : forall f p, f p <> None -> restore_manifests f l p <> None.
+Proof.
+  unfold restore_manifests. induction l as [|c l IH]; intros f p H; simpl; [exact H|].
+  apply IH. destruct (is_manifest_path (a_path c) && is_cu (a_op c)); [|exact H].
+  destruct (a_after c); [|exact H]. unfold upd. destruct (path_eqb p (a_path c)); [discriminate|exact H].
+Qed.
+
+Lemma delete_unlisted_removed cur tgt : forall f p,
+  f p <> None -> delete_unlisted f cur tgt p = None ->
+  exists e, In e cur /\ mpath e = p /\ mem_tpc (mtp e) tgt = false.
+Proof.
+  induction cur as [|x cur IH]; intros f p Hf Hn; [unfold delete_unlisted in Hn; simpl in Hn; contradiction|].
+  rewrite delete_unlisted_cons in Hn. destruct (mem_tpc (mtp x) tgt) eqn:E.
+  - destruct (IH f p Hf Hn) as [e (H1 & H2 & H3)]. exists e. split; [right; exact H1|auto].
+  - destruct (list_eq_dec (list_eq_dec N.eq_dec) (mpath x) p) as [Ep|Ep].
+    + exists x. split; [left; reflexivity|auto].
+    + destruct (IH (upd f (mpath x) None) p) as [e (H1 & H2 & H3)].
+      * rewrite upd_other by congruence. exact Hf.
+      * exact Hn.
+      * exists e. split; [right; exact H1|auto].
+Qed.
+
+(* a file that disappears during a rollback was recorded as managed by the current head snapshot
+   and is not recorded by the chosen snapshot *)
+Lemma rollback_removes_only_head_managed w id w' p :
+  rollback w id = (RbOk, w') -> files w p <> None -> files w' p = None ->
+  exists h cur tgt e, head_of (snaps w) = Some h /\ nth_error (snaps w) h = Some cur /\
+                      nth_error (snaps w) id = Some tgt /\
+                      In e (sn_managed cur) /\ mpath e = p /\ mem_tpc (mtp e) (sn_managed tgt) = false.
+Proof.
+  unfold rollback. destruct (nth_error (snaps w) id) as [tgt|] eqn:Et; [|discriminate].
+  destruct (head_of (snaps w)) as [h|] eqn:Eh; [|destruct (sn_kind tgt); discriminate].
+  destruct (nth_error (snaps w) h) as [cur|] eqn:Ec; [|destruct (sn_kind tgt); discriminate].
+  destruct (sn_state tgt); [|destruct (sn_kind tgt); discriminate].
+  intros H Hf Hn.
+  assert (Hw : files w' = delete_unlisted (restore_manifests (restore_managed (files w) (sn_managed tgt)) (sn_changes tgt))
+                                           (sn_managed cur) (sn_managed tgt)).
+  { destruct (sn_kind tgt); try discriminate; inversion H; reflexivity. }
+  rewrite Hw in Hn. apply delete_unlisted_removed in Hn as [e (H1 & H2 & H3)].
+  - exists h, cur, tgt, e. repeat split; auto.
+  - apply restore_manifests_keeps. apply restore_managed_keeps. exact Hf.
+Qed.
